@@ -80,8 +80,11 @@ def to_symbolic_model(model: Model) -> SymbolicModel:
 
     symbols: dict[str, sympy.Symbol | sympy.Expr] = variables | parameters | data  # type: ignore
 
-    # Insert derived into symbols
-    for k, v in model.get_raw_derived().items():
+    # Insert derived into symbols, in dependency order (a derived value may use
+    # one that is declared after it)
+    derived = model.get_raw_derived()
+    for k in (name for name in cache.order if name in derived):
+        v = derived[k]
         if (
             expr := fn_to_sympy(v.fn, origin=k, model_args=[symbols[i] for i in v.args])
         ) is None:
